@@ -58,6 +58,16 @@ func cases() []tcase {
 			}
 		}
 	}
+	// after a failed execution a retry at the same epoch is judged against the last completed epoch, like any proposal
+	for _, claimed := range []string{"L", "B", "X"} {
+		for _, signer := range []string{"L", "B", "X", "Xsub", "Xdup"} {
+			out = append(out, tcase{Base: "failed", Kind: "proposal", Claimed: claimed, Signer: signer, Mutation: "none",
+				Legit: (claimed == "L" || claimed == "B") && signer == claimed})
+		}
+	}
+	for _, mut := range []string{"member-key", "leader-key", "drop-member", "signature-bitflip", "genesis-seed"} {
+		out = append(out, tcase{Base: "failed", Kind: "proposal", Claimed: "L", Signer: "L", Mutation: mut, Legit: false})
+	}
 	for _, base := range []string{"proposed", "b-accepted", "accepted"} {
 		for _, kind := range []string{"accept", "reject", "execute", "abort"} {
 			entitled := map[string]string{"accept": "B", "reject": "B", "execute": "L", "abort": "L"}[kind]
@@ -197,7 +207,7 @@ func main() {
 	c.Count("distinct", evals)
 	c.Count("packets_that_changed_state", accepted)
 	c.Exhaustive(true)
-	c.Sub("c09-auth", map[string]any{"engine": "E2 depth-1 enumeration from snapshotted base states", "schemes": len(schemes), "base_states": 5, "packets": evals, "changed_state": accepted})
+	c.Sub("c09-auth", map[string]any{"engine": "E2 depth-1 enumeration from snapshotted base states", "schemes": len(schemes), "base_states": 6, "packets": evals, "changed_state": accepted})
 	c.Assume("base states are produced by real commands between three real processes (a real first DKG included) under the scheduler's default schedule and virtual time",
 		"reference predicate: a packet may change M's state iff it is the unmodified packet, signed by the key of the sender it claims, and that sender is entitled (leader: propose/execute/abort; a remaining member: its own accept/reject); a member of a completed epoch authenticates against the keys in its current group; a fresh node accepts any validly self-signed proposer that lists it")
 	c.Finish("one case = one packet (kind x claimed sender x signing key x single-field mutation) delivered to a fresh Process on a snapshot of the base state; states = base states, transitions = packets delivered")
